@@ -951,11 +951,22 @@ def t13(rep, w):
             # is the result unwrapped (a panic on Err)?
             org = origins(f)
             panics = False
+            carriers = {bi}       # the conversion, and the combinators its Result travels through (map, ok, and_then ...)
+            grew = True
+            while grew:
+                grew = False
+                for bj, t2 in f.calls():
+                    n2 = strip_generics(callee_name(t2) or '')
+                    if bj not in carriers and n2.rsplit('::', 1)[-1] in ('map', 'map_err', 'and_then', 'ok', 'or_else', 'as_ref', 'copied', 'cloned') and ('Result' in n2 or 'Option' in n2) and t2['args']:
+                        a = op_place(t2['args'][0])
+                        if a is not None and any(q[0][0] == 'call' and q[0][1] in carriers for q in org.get(a['l'], ())):
+                            carriers.add(bj)
+                            grew = True
             for bj, t2 in f.calls():
                 n2 = strip_generics(callee_name(t2) or '')
-                if n2.rsplit('::', 1)[-1] in ('unwrap', 'expect') and 'Result' in n2 and t2['args']:
+                if n2.rsplit('::', 1)[-1] in ('unwrap', 'expect', 'unwrap_unchecked') and ('Result' in n2 or 'Option' in n2) and t2['args']:
                     a = op_place(t2['args'][0])
-                    if a is not None and any(q[0][0] == 'call' and q[0][1] == bi for q in org.get(a['l'], ())):
+                    if a is not None and any(q[0][0] == 'call' and q[0][1] in carriers for q in org.get(a['l'], ())):
                         panics = True
             if not panics:
                 continue
